@@ -7,6 +7,9 @@ CLAIMED = {
  "C01": dict(tech="Colang front-end + CFG paths with three-valued guard evaluation; induction-variable recogniser; reject=>stop typestate; Python CFG must-pass-through; who-may-read/who-may-match tables",
              text="Decides the structure of the input-rails gate for all abstract configurations (flows empty/non-empty x options) and all paths of the shipped flows: gate-iff, order/once, rewritten-text def-use, reject=>stop in every shipped rail, stop clears next steps, Colang-2 overrides. Does not decide verdict values or interpreter faithfulness.",
              ref="DESIGN.md C01"),
+ "C02": dict(tech="Colang front-end + CFG paths with three-valued guard evaluation; one-shot flag typestate; flag pairing over normal and failure exits; who-may-write + reachability/taint for the skip flag; reject=>stop typestate",
+             text="Decides the structure of the output-rails gate for all abstract configurations (skip x flows x options) and all paths of the shipped flows, the one-shot consumption of the skip flag and its single untainted writer, reject=>stop in every shipped output rail, and in Colang 2 the gate in `_bot_say` plus reset of the re-entrancy flag on every exit including failure exits. Found and repaired F1, F2.",
+             ref="DESIGN.md C02"),
 }
 NA = {
  "C18": "equality of string results over all chunkings of a stateful transducer; no structural necessary condition that is not a brittle proxy (DESIGN.md C18)",
